@@ -78,7 +78,9 @@ def install_contract():
     _installed.append(True)
 
 
-def vec_hash_function(nout, seed):
+def vec_hash_function(nout, seed, integer_valued=False):
+    if integer_valued:
+        return hooks.VFunction([hooks.comp_int_hash(seed + j) for j in range(nout)], integer_valued=True)
     return hooks.VFunction([hooks.comp_hash(seed + j) for j in range(nout)])
 
 
@@ -147,8 +149,11 @@ def run_case(case, res):
         p = rng.choice([1, 3])
     bk, a, b = hooks.gen_box(rng, d, ["unit", "unit", "shifted", "negative", "aniso", "dyadic"])
     an, bn = np.array(a), np.array(b)
-    f = vec_hash_function(nout, case["seed"])
-    cfg = {"kind": kind, "d": d, "p": p, "nout": nout, "a": a, "b": b, "box": bk}
+    int_valued = rng.random() < 0.15     # a function whose values are integers (labels, counts) is a function too
+    f = vec_hash_function(nout, case["seed"], int_valued)
+    cfg = {"kind": kind, "d": d, "p": p, "nout": nout, "a": a, "b": b, "box": bk, "integer_valued_function": int_valued}
+    if int_valued:
+        res.count("integer_valued_function")
     res.sample = {"config": cfg}
     if kind.startswith("local"):
         boundary = rng.random() < 0.7
